@@ -269,7 +269,20 @@ func amplifiers(c *vp.Child) {
 				what := fmt.Sprintf("%s with N=%s under cpu %d / memory %d", a.Name, n, lim.cpu, lim.mem)
 				reportHooks(c, o, what, text)
 				if dt > 20 {
-					c.Violation("unmetered-work", a.Name+" N="+n, fmt.Sprintf("%s: used %.1f s of process CPU time before coming back (%s, status %s, accounted cpu %d)", what, dt, o.Kind, o.CtxStatus, o.UsedCPU), text)
+					// confirm against the machine: a loaded host makes fresh-memory work erratic
+					confirmed, inconclusive, best, cal := quota.ConfirmSlow(dt, 20, func() float64 {
+						t0 := quota.CPUTime()
+						quota.Run(text, nil, lim.cpu, lim.mem)
+						return quota.CPUTime() - t0
+					})
+					switch {
+					case confirmed:
+						c.Violation("unmetered-work", a.Name+" N="+n, fmt.Sprintf("%s: used %.1f s of process CPU time before coming back in each of 4 runs (first %.1f s; calibration %.2f s) (%s, status %s, accounted cpu %d)", what, best, dt, cal, o.Kind, o.CtxStatus, o.UsedCPU), text)
+					case inconclusive:
+						c.Inconclusive(fmt.Sprintf("%s: %.1f s of CPU time, but the machine's calibration run took %.2f s", what, best, cal))
+					default:
+						c.Feature("amplifier-slow-once-not-confirmed", 1)
+					}
 				}
 				if o.CtxStatus == "killed" && o.UsedCPU >= lim.cpu {
 					c.Violation("used-reaches-limit", a.Name, fmt.Sprintf("%s: used %d", what, o.UsedCPU), text)
